@@ -282,7 +282,7 @@ class SymExec(object):
                 env[k] = Ptr(env[k].base, Lin.sym('%s@J%d' % (k, b.id)))
         key = (b.id, frozenset((k, v.key() if hasattr(v, 'key') else v) for k, v in env.items()),
                frozenset((k, v) for k, v in st.notes.items() if k not in ('region_start', 'region_env', 'start_vals') and not (isinstance(k, tuple) and k[0] == 'atom')
-                         and not (isinstance(k, tuple) and len(k) > 1 and isinstance(k[1], str) and any(vn in k[1] for vn in self.volatile_names))),
+                         and not (isinstance(k, tuple) and len(k) > 1 and isinstance(k[1], str) and any(vn in k[1] for vn in (self.volatile_names if b.id in self.loops else ())))),
                frozenset(keep_inv))
         if key in self.seen_join:
             return None
@@ -290,7 +290,7 @@ class SymExec(object):
         s2 = PState()
         s2.env = env
         s2.notes = dict((k, v) for k, v in st.notes.items() if not (isinstance(k, tuple) and k[0] == 'atom') and k not in ('region_env', 'start_vals')
-                        and not (isinstance(k, tuple) and len(k) > 1 and isinstance(k[1], str) and any(vn in k[1] for vn in self.volatile_names)))
+                        and not (isinstance(k, tuple) and len(k) > 1 and isinstance(k[1], str) and any(vn in k[1] for vn in (self.volatile_names if b.id in self.loops else ()))))
         s2.notes['region_start'] = b.id
         s2.notes['start_vals'] = tuple(sorted(((k, env[k] if isinstance(env[k], Lin) else env[k].off) for k in (self.merge_vars or ()) if isinstance(env.get(k), (Lin, Ptr))), key=lambda x: x[0]))
         s2.notes['region_env'] = dict((k, (env[k].key() if hasattr(env.get(k), 'key') else env.get(k, ('unset',)))) for k in (self.merge_vars or ()))
@@ -298,7 +298,7 @@ class SymExec(object):
         s2.loopsyms = dict(st.loopsyms)
         mv = tuple(self.merge_vars or ())
         for (terms, c) in st.facts:
-            if all(not any(tn.startswith(m) for m in mv) and not any(vn in tn for vn in self.volatile_names) for tn, _ in terms):
+            if all(not any(tn.startswith(m) for m in mv) and not any(vn in tn for vn in (self.volatile_names if b.id in self.loops else ())) for tn, _ in terms):
                 s2.facts.add((terms, c))
         if self.invariants:
             for (name, l) in self.invariants(self, s2):
